@@ -42,6 +42,15 @@ try:
                                    summary=[l[:200] for l in lines[:3]])
         meta["ran"].append(f"SYMX_REPO=<worktree> ./check {cid} --tier quick")
     shutil.rmtree(out, ignore_errors=True)
+    try:      # keep hand-recorded thorough-tier results across re-verification
+        old = json.load(open(os.path.join(dst, "meta.json")))
+        if old.get("thorough_note"):
+            meta["thorough_note"] = old["thorough_note"]
+        for k, v in old.get("checks", {}).items():
+            if "thorough" in k:
+                meta["checks"][k] = v
+    except (OSError, ValueError):
+        pass
     json.dump(meta, open(os.path.join(dst, "meta.json"), "w"), indent=1)
     print(name, meta.get("suite_with_change"), meta.get("demo_with_change", {}).get("exit"), meta.get("demo_without_change", {}).get("exit"),
           {k: v["verdict"] for k, v in meta["checks"].items()})
